@@ -31,12 +31,23 @@ Theorem dry_run_transparent :
 Proof. exact Proofs.dry_run_transparent. Qed.
 Print Assumptions dry_run_transparent.
 
-(** The dry run reports exactly the targets a real build of the same tree attempts: when the real build (same
-    always-option, same tree) visits every target successfully, a label has an evaluating event in the dry run iff it has
-    one in the real build.  Hypotheses: no two targets generate the same path ([gens_unique]); at most one generator per
-    registered source ([link_ok], otherwise the load fails).  (When a body fails the real build stops below the failure;
-    that half of the statement -- equality apart from targets downstream of the failure -- is decided by the harness
-    oracle only.) *)
+(** The dry run reports exactly the targets a real build of the same tree attempts.  For EVERY target that the real build
+    (same always-option, same failing bodies, same tree) did not cut off because one of its dependencies failed -- it
+    succeeded, or its own body failed, or it was never visited ([attempted]) -- the label has an evaluating event in the
+    dry run iff it has one in the real build: the two reports are identical apart from targets downstream of a failure.
+    Hypotheses: no two targets generate the same path ([gens_unique]); at most one generator per registered source
+    ([link_ok], otherwise the load fails). *)
+Theorem dry_run_predicts_attempted :
+  forall c w l,
+    c_dry c = false -> c_crashed c = false -> link_ok (w_proj w) = true -> gens_unique (w_proj w) ->
+    let real := build c w l in
+    let dry := build (dry_of c) w l in
+    forall x, attempted (o_vis real) x ->
+      (In (EEvaluating x) (o_events dry) <-> In (EEvaluating x) (o_events real)).
+Proof. exact Proofs_Dry.dry_run_predicts_attempted. Qed.
+Print Assumptions dry_run_predicts_attempted.
+
+(** ... in particular for every target when the real build visits every target successfully. *)
 Theorem dry_run_predicts :
   forall c w l,
     c_dry c = false -> c_crashed c = false -> link_ok (w_proj w) = true -> gens_unique (w_proj w) ->
@@ -46,6 +57,19 @@ Theorem dry_run_predicts :
     forall x, In (EEvaluating x) (o_events dry) <-> In (EEvaluating x) (o_events real).
 Proof. exact Proofs_Dry.dry_run_predicts. Qed.
 Print Assumptions dry_run_predicts.
+
+(** non-vacuity of the failing case: the body of 1 fails; the real build attempts the source and 1 and cuts 2 off; the
+    dry run reports 10, 1 and also 2 (which WOULD run) -- they differ exactly on the target downstream of the failure *)
+Example dry_run_failing_example :
+  let pr := [(1, Fn [] [10] [100] 1 7 false); (2, Fn [1] [] [101] 2 8 false); (10, Src 50)] in
+  let w := mkWorld pr [(50, CLit 1)] [] 1 0 [] [] in
+  let c := mkCfg false false [1] false [] [] [] in
+  let real := build c w 2 in
+  let dry := build (dry_of c) w 2 in
+  map (fun lv => (fst lv, v_res (snd lv))) (o_vis real) = [(2, RFailDep); (1, RFailBody); (10, ROk)] /\
+  filter (fun e => match e with EEvaluating _ => true | _ => false end) (o_events real) = [EEvaluating 10; EEvaluating 1] /\
+  filter (fun e => match e with EEvaluating _ => true | _ => false end) (o_events dry) = [EEvaluating 10; EEvaluating 1; EEvaluating 2].
+Proof. vm_compute. repeat split. Qed.
 
 (** non-vacuity: a two-target world in which the dry run reports work and changes nothing *)
 Example dry_run_example :
